@@ -9,7 +9,6 @@
  *   epoll_ctl() records whether write interest (EPOLLOUT) is registered for the user fd.
  *
  * Commands: sendres / write / vwrite / flush / cycle / wready / close / peerclose / peerfin / dump
- * (+ peerfin_raw: peerfin through the unmodified process_io, which has a use-after-free)
  * (see props/c14.py for the trace format).
  */
 #include "vh.h"
@@ -114,31 +113,45 @@ static void q_push (sendres_t r)
 
 /* ---- libc interposition ------------------------------------------------- */
 
+static int c14_console = 0;	/* the user is the console user (all_users[0]): output goes through write(1, ..) */
+
+/* consume the next scripted result for a chunk of `len` bytes offered by flush_message */
+static ssize_t scripted_io (const void *buf, size_t len)
+{
+  sendres_t r;
+  if (c14_qhead < c14_qlen)
+    r = c14_q[c14_qhead++];
+  else
+    {
+      r.kind = R_ACCEPT;
+      r.n = (long) len;
+    }
+  if (r.kind == R_ACCEPT)
+    {
+      size_t k = (size_t) r.n < len ? (size_t) r.n : len;
+      char *h = hexof ((const unsigned char *) buf, k);
+      out ("send %lu a %s", (unsigned long) len, h);
+      free (h);
+      return (ssize_t) k;
+    }
+  out ("send %lu %s -", (unsigned long) len, r.tok);
+  errno = r.err;
+  return -1;
+}
+
 ssize_t send (int fd, const void *buf, size_t len, int flags)
 {
   if (fd >= 0 && fd == c14_userfd)
-    {
-      sendres_t r;
-      if (c14_qhead < c14_qlen)
-        r = c14_q[c14_qhead++];
-      else
-        {
-          r.kind = R_ACCEPT;
-          r.n = (long) len;
-        }
-      if (r.kind == R_ACCEPT)
-        {
-          size_t k = (size_t) r.n < len ? (size_t) r.n : len;
-          char *h = hexof ((const unsigned char *) buf, k);
-          out ("send %lu a %s", (unsigned long) len, h);
-          free (h);
-          return (ssize_t) k;
-        }
-      out ("send %lu %s -", (unsigned long) len, r.tok);
-      errno = r.err;
-      return -1;
-    }
+    return scripted_io (buf, len);
   return (ssize_t) syscall (SYS_sendto, fd, buf, len, flags, NULL, 0);
+}
+
+/* the console user's flush_message uses FILE_WRITE (STDOUT_FILENO, ..) = write(2) */
+ssize_t write (int fd, const void *buf, size_t len)
+{
+  if (c14_console && fd == STDOUT_FILENO)
+    return scripted_io (buf, len);
+  return (ssize_t) syscall (SYS_write, fd, buf, len);
 }
 
 int epoll_ctl (int epfd, int op, int fd, struct epoll_event *ev)
@@ -156,7 +169,7 @@ static int nonblock (int fd)
   return fl < 0 ? -1 : fcntl (fd, F_SETFL, fl | O_NONBLOCK);
 }
 
-static void c14_setup (void)
+static void c14_setup (int kind)	/* 0 ascii, 1 telnet, 2 console */
 {
   error_context_t econ;
   port_def_t port;
@@ -171,6 +184,27 @@ static void c14_setup (void)
       out ("setupfail runtime");
       _exit (0);
     }
+  eval_cost = CONFIG_INT (__MAX_EVAL_COST__);
+  if (kind == 2)
+    {
+      /* the real console-mode connect: new_interactive (STDIN_FILENO) -> slot 0, master connect(), logon() */
+      VH_TRY (econ)
+        init_console_user (0);
+      VH_CATCH (econ)
+        out ("setupfail error");
+        _exit (0);
+      VH_END
+      if (!all_users || !all_users[0] || !all_users[0]->ob)
+        {
+          out ("setupfail noconsole");
+          _exit (0);
+        }
+      uob = all_users[0]->ob;
+      add_ref (uob, "c14 harness");
+      c14_console = 1;
+      c14_userfd = -1;
+      return;
+    }
   if (socketpair (AF_UNIX, SOCK_STREAM, 0, c14_fd) < 0 || nonblock (c14_fd[0]) < 0 || nonblock (c14_fd[1]) < 0)
     {
       out ("setupfail socketpair");
@@ -180,21 +214,22 @@ static void c14_setup (void)
   c14_peer_open = 1;
   memset (&addr, 0, sizeof addr);
   addr.sin_family = AF_INET;
-  port.kind = PORT_ASCII;	/* no telnet negotiation is written at connect */
+  port.kind = kind == 1 ? PORT_TELNET : PORT_ASCII;
   port.port = 4000;
   port.fd = INVALID_SOCKET_FD;
-
-  /* Pre-size the user table (as a console-mode start-up does).  Without this the very first network user makes
-   * new_interactive() CALLOCATE 50 slots and then clear slots 0..50: an 8 byte heap overflow at comm.c
-   * `while (max_users < i + 50) all_users[max_users++] = 0;` with i == 1 (reported by ASan; not part of C14). */
-  if (!all_users)
+  if (kind == 1)
     {
-      all_users = CALLOCATE (50, interactive_t *, TAG_USERS, "c14 harness");	/* not zeroed by the macro */
-      for (max_users = 0; max_users < 50; max_users++)
-        all_users[max_users] = 0;
+      /* setup_accepted_connection add_message()s these itself and then flushes; none of them can trigger a send
+       * (12 bytes into an empty ring), so the write markers can be printed up front */
+      char *neg[] = { telnet_no_echo, telnet_do_ttype, telnet_do_naws, telnet_do_linemode };
+      for (int i = 0; i < 4; i++)
+        {
+          char *h = hexof ((unsigned char *) neg[i], strlen (neg[i]));
+          out ("wbeg m %s", h);
+          out ("wend");
+          free (h);
+        }
     }
-
-  eval_cost = CONFIG_INT (__MAX_EVAL_COST__);
   VH_TRY (econ)
     setup_accepted_connection (&port, c14_fd[0], &addr);
   VH_CATCH (econ)
@@ -228,7 +263,7 @@ static void st_line (int existed)
       out ("st closed");
     }
   else
-    out ("st %d %d %d %d %d", c14_want, ip->message_producer, ip->message_consumer, ip->message_length,
+    out ("st %d %d %d %d %d", c14_want || c14_console, ip->message_producer, ip->message_consumer, ip->message_length,
          (ip->iflags & NET_DEAD) ? 1 : 0);
 }
 
@@ -238,46 +273,14 @@ static void poll_and_process (void)
   struct timeval tv = { 0, 0 };
   eval_cost = CONFIG_INT (__MAX_EVAL_COST__);
   VH_TRY (econ)
-    if (do_comm_polling (&tv) > 0)
-      process_io ();
-  VH_CATCH (econ)
-    out ("lpcerr");
-  VH_END
-}
-
-/* Same dispatch as the interactive-user branch of process_io(), but the "is ip still valid" test after
- * get_user_data() looks at uob->interactive instead of reading the interactive_t that remove_interactive() has just
- * freed (process_io reads ip->ob of the freed struct at comm.c "ip->ob may be invalid after get_user_data":
- * heap-use-after-free under ASan on every peer FIN; not part of C14).  Used by `peerfin`; `peerfin_raw` runs the
- * real process_io(). */
-static void poll_and_dispatch_safe (void)
-{
-  error_context_t econ;
-  struct timeval tv = { 0, 0 };
-  eval_cost = CONFIG_INT (__MAX_EVAL_COST__);
-  VH_TRY (econ)
-    int n = do_comm_polling (&tv);
-    for (int i = 0; i < n; i++)
+    if (c14_console)
       {
-        io_event_t *evt = &g_io_events[i];
-        interactive_t *ip = uob->interactive;
-        if (!ip || evt->context != (void *) ip)
-          continue;
-        if (evt->event_type & (EVENT_ERROR | EVENT_CLOSE))
-          {
-            remove_interactive (ip->ob, 0);
-            continue;
-          }
-        if (evt->event_type & EVENT_READ)
-          {
-            get_user_data (ip, evt);
-            if (uob->interactive != ip)
-              continue;
-          }
-        if (evt->event_type & EVENT_WRITE)
-          flush_message (ip);
+        /* no fd of the console user is polled: the pass of process_io() that any event causes flushes it */
+        g_num_io_events = 0;
+        process_io ();
       }
-    g_num_io_events = 0;
+    else if (do_comm_polling (&tv) > 0)
+      process_io ();
   VH_CATCH (econ)
     out ("lpcerr");
   VH_END
@@ -329,15 +332,29 @@ static int c14_cmd (char *line)
   size_t clen = arg ? (size_t) (arg - line) : strlen (line);
   int existed;
 #define IS(s) (clen == strlen (s) && !strncmp (line, s, clen))
+  if (IS ("connect"))
+    {
+      while (arg && *arg == ' ')
+        arg++;
+      int kind = arg && !strcmp (arg, "telnet") ? 1 : arg && !strcmp (arg, "console") ? 2 : 0;
+      if (c14_ready)
+        {
+          out ("badcmd connect after the first operation");
+          return 1;
+        }
+      c14_setup (kind);
+      if (kind == 1)
+        st_line (0);
+      return 1;
+    }
   if (!(IS ("sendres") || IS ("write") || IS ("vwrite") || IS ("flush") || IS ("cycle") || IS ("wready") || IS ("close")
-        || IS ("peerclose") || IS ("peerfin") || IS ("peerfin_raw") || IS ("dump")))
+        || IS ("peerclose") || IS ("peerfin") || IS ("dump")))
     return 0;
   while (arg && *arg == ' ')
     arg++;
-  c14_setup ();
-
   if (IS ("sendres"))
     return c14_sendres (arg ? arg : "");
+  c14_setup (0);
 
   if (IS ("dump"))
     {
@@ -426,14 +443,11 @@ static int c14_cmd (char *line)
         }
       poll_and_process ();
     }
-  else if (IS ("peerfin") || IS ("peerfin_raw"))
+  else if (IS ("peerfin"))
     {
       if (c14_peer_open)
         shutdown (c14_fd[1], SHUT_WR);
-      if (IS ("peerfin_raw"))
-        poll_and_process ();
-      else
-        poll_and_dispatch_safe ();
+      poll_and_process ();
     }
   st_line (existed);
   return 1;
